@@ -78,7 +78,7 @@ def run_with(eng, st, cm_results, body_src="__probe__()"):
 def std_globals(c):
     """module-level values computed at import time, given their documented ranges"""
     m = c.int("MAX_STR_INT")
-    c.requires(z3.Or(m.t == 0, m.t >= 640), "liquid.limits.MAX_STR_INT is 0 (unlimited) or >= 640")
+    c.requires(z3.And(z3.Or(m.t == 0, m.t >= 640), m.t < 2**31), "liquid.limits.MAX_STR_INT is 0 (unlimited) or >= 640 (sys.get_int_max_str_digits(): a C int)")
     c.override_global("liquid.limits", "MAX_STR_INT", m)
     c.pools["MAX_STR_INT"] = [4300]  # CPython's default int-to-str digit limit (the value the native side runs with)
 
